@@ -1,6 +1,8 @@
 """C13 - search bounds are admissible and search enumerators are complete."""
 import itertools, random
 from runtime import harness as H
+from props import _ded as D
+from contracts import objectives as O
 from runtime import t3_misc as T
 
 
@@ -48,5 +50,7 @@ def t3(rep, tier, seed):
 
 def run(rep, tier, seed):
     rep.level = "exploration"
-    rep.assume("A1", "A4", "A6", "A8")
+    rep.assume("A1", "A2", "A4", "A5", "A6", "A8")
+    D.run_contracts(rep, "C13", O.BOUND_CONTRACTS, tier)
     t3(rep, tier, seed)
+    D.link_falsifier(rep)
